@@ -3,6 +3,9 @@
 # change (git apply -R) and prints one line per (seed, check). Evidence files are overwritten by these runs: run
 # tools/regress.sh on the clean tree afterwards, before committing.
 # Usage: tools/seedmatrix.sh [seed...]
+# evidence files are rewritten by every check run: keep the clean-tree evidence and put it back at the end
+rm -rf /var/tmp/evidence.keep && cp -r /verif/evidence /var/tmp/evidence.keep
+trap 'rm -rf /verif/evidence && cp -r /var/tmp/evidence.keep /verif/evidence && rm -rf /var/tmp/evidence.keep' EXIT
 cd /repo && git diff --quiet || { echo "repo dirty"; exit 2; }
 declare -A REL=(
  [C01-a]="C04 C06 C08" [C02-a]="C04 C06" [C03-a]="C07" [C04-a]="C04 C11" [C05-a]="C05 C04" [C06-a]="C06 C13"
